@@ -51,6 +51,8 @@ def c13(run):
     from rules import r_lockimpl
     r_lockimpl.run(run, Pts)
     r_lockimpl.run_init_once(run, Pts)
+    from rules import r_misc12
+    r_misc12.run_sockets_nonblocking(run, Pts)
     run.assumptions = ASSUME_COMMON + [
         "paths after a failed re-lock (state F; only possible while coap_cleanup() runs concurrently) carry no obligations",
         "address-taken library functions (layer tables, persistence call-outs, TLS back-end callbacks) are entered with the lock held",
@@ -88,6 +90,7 @@ def c18(run):
     r_dangfield.run(run, P)
     from rules import r_misc12
     r_misc12.run_linked_destroyed(run, P)
+    r_misc12.run_destroy_uninitialised(run, P)
     from rules import r_nullbelief
     _md = r_nullbelief.run(run, P)
     r_nullbelief.run_installed(run, P, _md)
@@ -178,6 +181,7 @@ def c01(run):
     run.min_instances('R-CODEC-TAB', 30)
     run.min_instances('R-FIXUP', 8)
     run.assumptions = ASSUME_COMMON + ["equality of parse(serialise(m)) with m over the message space and insertion-order stability are NOT decided"]
+    r_codec.run_option_limits(run, P)    # what the builder may emit (an empty If-Match) the parser accepts: both follow the RFC length table
     return run.finish(
         "Writer/reader table agreement decided statically: the thresholds, arm offsets and nibble splits of every option/TCP-length/token-length "
         "encoder and decoder equal the RFC 7252/8323/8974 tables and each other, the decoder's option-number bound as folded by the compiler equals the "
@@ -442,6 +446,8 @@ def c10(run):
     run.assumptions = ASSUME_COMMON + ["the reply code table over the product of request features is NOT decided (a rule pinning the resp = 4.xx assignments would be a frozen "
                                        "fragment firing on behaviour-preserving edits); handler selection is NOT decided; of the suppression rules only the internal agreement of "
                                        "the decision table (flag <-> class, No-Response bit <-> class) is decided, not when suppression applies"]
+    from rules import r_fixup as _rf
+    _rf.run_pairing(run, P)              # the handler sees the request's payload: the in-place edit of a received Block2 option moves size and payload pointer together
     return run.finish(
         "At most one direct reply per request datagram, decided structurally: the response object of handle_request and the error replies of "
         "coap_dispatch / check_token_size are linear (created once, sent or deleted exactly once on every path, never used after being handed to "
